@@ -153,3 +153,19 @@ def leaf_case(case: dict, uni_model) -> dict:
     c = {"graph": case["graph"], "params": {k: float(v) for k, v in spread.items()},
          "mods": case.get("mods", []), "dists": case.get("dists", {}), "max_time": case.get("max_time", 10)}
     return c
+
+
+def prime_with_flipped_kinds(m, case, query):
+    """A short history before the real query (trinary models only): register every modality with the OTHER kind but the
+    same spec/sens, run the query once, then register the real kinds again.  Results must not depend on such a history
+    (C09); running it inside the numerical checks lets them see stale caches keyed on too little."""
+    if case["graph"]["base"] != 3 or not case.get("mods"):
+        return
+    for name, spec, sens, kind in case["mods"]:
+        m.set_modality(name, spec, sens, "clinical" if kind == "pathological" else "pathological")
+    try:
+        query(m)
+    except Exception:  # noqa: BLE001
+        pass
+    for name, spec, sens, kind in case["mods"]:
+        m.set_modality(name, spec, sens, kind)
